@@ -201,15 +201,16 @@ func exhaustive(tag string, n, k int, negz bool) {
 }
 
 // all ordered vertex tuples, unclosed spelling only
-func exhaustiveOpen(tag string, n, k int) {
+// (vertices on {0..k}/den; the query grid extends one unit beyond)
+func exhaustiveOpen(tag string, n, k int, den float64) {
 	m := (k + 1) * (k + 1)
 	idx := make([]int, n)
 	for {
 		rg := make(ring, n)
 		for i, v := range idx {
-			rg[i] = pt(float64(v%(k+1)), float64(v/(k+1)))
+			rg[i] = pt(float64(v%(k+1))/den, float64(v/(k+1))/den)
 		}
-		emitGrid(tag, -2, 2*k+2, false, poly(rg))
+		emitGrid(tag, -2, int(2*float64(k)/den)+2, false, poly(rg))
 		i := 0
 		for i < n {
 			idx[i]++
@@ -451,7 +452,9 @@ func gen(seed uint64, tier string) {
 		exhaustive("tri", 3, 2, true)
 		exhaustive("tri3", 3, 3, true)
 		exhaustive("quad2", 4, 2, true)
-		exhaustiveOpen("quad3", 4, 3)
+		exhaustiveOpen("quad3", 4, 3, 1)
+		exhaustiveOpen("trihalf", 3, 4, 2)
+		exhaustiveOpen("trihalf6", 3, 6, 2)
 		sampled(r, 20000)
 		bigGrid(r, 1500)
 		floatCases(r, 150000)
@@ -459,6 +462,7 @@ func gen(seed uint64, tier string) {
 	} else {
 		exhaustive("tri", 3, 2, true)
 		exhaustive("tri3", 3, 3, false)
+		exhaustiveOpen("trihalf", 3, 4, 2)
 		sampled(r, 4000)
 		bigGrid(r, 300)
 		floatCases(r, 20000)
